@@ -283,6 +283,30 @@ theorem roundHalfEven_sub_int (x : Rat) (k : Int) (h : ∀ c : Int, x ≠ (c : R
     linarith
 
 
+/-! ### block decomposition -/
+
+
+/-- cropping the source to the block that starts at column `offc` / row `offr` shifts the exact position by the offset: what
+`gradient_resampler_indices` adds back (`indices_xy[0] += x_slice.start`, `[1] += y_slice.start`) -/
+theorem crop_shift (x0 y0 dx dy X Y : Rat) (hdx : dx ≠ 0) (hdy : dy ≠ 0) (offc offr : Int) :
+    exactP (x0 + offc * dx) dx X + offc = exactP x0 dx X ∧ exactL (y0 - offr * dy) dy Y + offr = exactL y0 dy Y := by
+  simp only [exactP, exactL]
+  constructor <;> field_simp <;> ring
+
+/-- **the block decomposition is invisible**: a target position that the search emits on a cropped source block (columns
+`offc ..`, rows `offr ..`) and on the whole source gets, after the offset is added back, the same global position -/
+theorem chunk_invariance (x0 y0 dx dy X Y : Rat) (hdx : dx ≠ 0) (hdy : dy ≠ 0) (offc offr lmax pmax lmaxB pmaxB : Int)
+    (fuel fuelB : Nat) (cur last curB lastB : Int × Int) (r rB : Found)
+    (hfull : (searchLoop (affine x0 y0 dx dy) lmax pmax X Y fuel cur last).1 = some r)
+    (hblock : (searchLoop (affine (x0 + offc * dx) (y0 - offr * dy) dx dy) lmaxB pmaxB X Y fuelB curB lastB).1 = some rB) :
+    (indicesXY rB).1 + offc = (indicesXY r).1 ∧ (indicesXY rB).2 + offr = (indicesXY r).2 := by
+  have h1 := (search_sound x0 y0 dx dy X Y hdx hdy lmax pmax fuel cur last r hfull).1
+  have h2 := (search_sound (x0 + offc * dx) (y0 - offr * dy) dx dy X Y hdx hdy lmaxB pmaxB fuelB curB lastB rB hblock).1
+  obtain ⟨s1, s2⟩ := crop_shift x0 y0 dx dy X Y hdx hdy offc offr
+  rw [h1, h2]
+  exact ⟨s1, s2⟩
+
+
 /-! ### non-vacuity: concrete searches -/
 
 /-- a 6 x 8 source (x0 = 10, dx = 2, y0 = 50, dy = 3), target position (X, Y) = (17, 39.5): P = 3.5, L = 3.5,
